@@ -162,6 +162,28 @@ func genHistory(rng *rand.Rand, serial uint64) (evs []ev, desc string) {
 			evs = append(evs, ev{Kind: "inject", Desc: "inject", Inj: injVAA(rng, serial, j)}, ev{Kind: "loopback"})
 		}
 		evs = append(evs, ev{Kind: "age", Age: 35 * time.Second}, ev{Kind: "cleanup"}, ev{Kind: "age", Age: 6 * time.Minute}, ev{Kind: "cleanup"}, ev{Kind: "age", Age: 2 * time.Hour}, ev{Kind: "cleanup"})
+	case 5: // the same message id with another body (the transaction was re-mined with another timestamp / content) after a VAA for the id is already stored
+		evs = append(evs, ev{Kind: "set", Set: set})
+		m := msgs[0]
+		mp2 := *m.Pub
+		mp2.Timestamp = m.Pub.Timestamp.Add(time.Duration(1+rng.Intn(20)) * time.Second)
+		if rng.Intn(2) == 0 {
+			mp2.Payload = append([]byte{0x77}, m.Pub.Payload...)
+		}
+		rng.Read(mp2.TxHash[:])
+		m2 := proc.NewMsg(&mp2)
+		if rng.Intn(2) == 0 {
+			evs = append(evs, full(m)...) // stored by the node's own quorum
+		} else { // stored through the inbound path
+			var pos []int
+			for i := 0; i < q; i++ {
+				pos = append(pos, i)
+			}
+			evs = append(evs, ev{Kind: "inbound", Desc: "inbound-valid(" + short(m.ID) + ")", In: proc.MkVAA(m.Body, set.Index, &proc.GSet{Pool: pool, Index: set.Index}, pos, -1)})
+		}
+		evs = append(evs, full(m2)...)
+		evs = append(evs, ev{Kind: "age", Age: 40 * time.Second}, ev{Kind: "cleanup"})
+		desc += " same-id-other-body"
 	default:
 		evs = append(evs, ev{Kind: "set", Set: set})
 		for _, m := range msgs {
